@@ -917,3 +917,13 @@ mutant("M148-unify-rechunks-only-equal-chunks", ["C01", "C17"], "ALIGN-1", (MANI
 benign("B-unify-branches-swapped", ["C01", "C17"], (MANIP2, "            if chunks != a.chunks and all(a.chunks):\n                # this will raise if chunks are not regular\n                # but this should never happen with smallest_blockdim\n                chunksize = to_chunksize(chunks)  # type: ignore\n                arrays.append(rechunk(a, chunksize))\n            else:\n                arrays.append(a)", "            if chunks == a.chunks or not all(a.chunks):\n                arrays.append(a)\n            else:\n                chunksize = to_chunksize(chunks)  # type: ignore\n                arrays.append(rechunk(a, chunksize))"))
 mutant("M149-store-source-type-guard-inverted", ["C11"], "STORE-GUARD-1", (MANIP2, "    if any(not isinstance(s, CoreArray) for s in sources):", "    if not any(not isinstance(s, CoreArray) for s in sources):"))
 mutant("M150-store-length-guard-inverted", ["C11"], "STORE-GUARD-1", (MANIP2, "    if len(sources) != len(targets):\n        raise ValueError(", "    if len(sources) == len(targets):\n        raise ValueError("))
+# sweep 3
+CREATION_F = "cubed/array_api/creation_functions.py"
+RTUTILS = "cubed/runtime/utils.py"
+mutant("M151-over-budget-collector-returns-nothing", ["C04"], "ADMIT-COLLECT-1", (PLAN, "        ops_exceeding.sort(key=lambda x: x[1].projected_mem, reverse=True)\n        return ops_exceeding\n", "        ops_exceeding.sort(key=lambda x: x[1].projected_mem, reverse=True)\n"))
+benign("B-over-budget-collector-sorted-copy", ["C04"], (PLAN, "        ops_exceeding.sort(key=lambda x: x[1].projected_mem, reverse=True)\n        return ops_exceeding\n", "        return sorted(ops_exceeding, key=lambda x: x[1].projected_mem, reverse=True)\n"))
+mutant("M152-operation-start-never-delivered", ["C13"], "EVENTS-HELPERS-1", (RTUTILS, "        event = OperationStartEvent(name)\n        for callback in callbacks:\n            callback.on_operation_start(event)", "        event = OperationStartEvent(name)\n        for callback in callbacks:\n            pass"))
+mutant("M153-task-end-only-to-first-callback", ["C13"], "EVENTS-HELPERS-1", (RTUTILS, "        for callback in callbacks:\n            callback.on_task_end(event)", "        for callback in list(callbacks)[:1]:\n            callback.on_task_end(event)"))
+benign("B-operation-end-helper-truthiness", ["C13"], (RTUTILS, "def handle_operation_end_callbacks(callbacks, name) -> None:\n    if callbacks is not None:", "def handle_operation_end_callbacks(callbacks, name) -> None:\n    if callbacks:"))
+mutant("M154-like-args-spec-default-inverted", ["C19"], "SPEC-THREAD-1", (CREATION_F, "    if spec is None:\n        spec = x.spec\n    return dict(shape=x.shape", "    if spec is not None:\n        spec = x.spec\n    return dict(shape=x.shape"))
+benign("B-like-args-spec-or", ["C19"], (CREATION_F, "    if spec is None:\n        spec = x.spec\n    return dict(shape=x.shape", "    spec = spec or x.spec\n    return dict(shape=x.shape"))
